@@ -7,23 +7,23 @@ ID=$1; K=$2; shift 2
 P=${SEEDPFX:-seed}; WT=/tmp/$P-$ID; OUT=/tmp/$P-$ID-out; DEST=/verif/seeded/$ID-$K
 cd $WT || exit 9
 git checkout -q -- . ; git status --short | grep -v '^??' && { echo "worktree dirty"; exit 9; }
-PYTHONPATH=$WT timeout 600 /venv/bin/python $OUT/demo_$K.py > /tmp/seed-demo0.log 2>&1; d0=$?
+PYTHONPATH=$WT timeout 600 /venv/bin/python $OUT/demo_$K.py > /tmp/seed-demo0-$$.log 2>&1; d0=$?
 git apply $OUT/patch_$K.diff || { echo "PATCH does not apply"; exit 9; }
 t=$(/venv/bin/python -m pytest -q -p no:cacheprovider --timeout=900 --continue-on-collection-errors 2>&1 | tail -1)
-PYTHONPATH=$WT timeout 600 /venv/bin/python $OUT/demo_$K.py > /tmp/seed-demo1.log 2>&1; d1=$?
+PYTHONPATH=$WT timeout 600 /venv/bin/python $OUT/demo_$K.py > /tmp/seed-demo1-$$.log 2>&1; d1=$?
 echo "demo_unchanged_exit=$d0 demo_changed_exit=$d1 tests=[$t]"
 mkdir -p /tmp/seed-replays-$ID
-cd /verif && DSIM_REPO=$WT DSIM_REPLAY_DIR=/tmp/seed-replays-$ID timeout 1500 /venv/bin/python -m dsim.check $ID --no-evidence "$@" 2>&1 | grep -v conda | grep -E "VIOLATION|HARNESS|KNOWN|done|oracle=" | cut -c1-500 > /tmp/seed-check.log; c=${PIPESTATUS[0]}
-cat /tmp/seed-check.log; echo "CHECK-EXIT=$c"
+cd /verif && DSIM_REPO=$WT DSIM_REPLAY_DIR=/tmp/seed-replays-$ID timeout 1500 /venv/bin/python -m dsim.check $ID --no-evidence "$@" 2>&1 | grep -v conda | grep -E "VIOLATION|HARNESS|KNOWN|done|oracle=" | cut -c1-500 > /tmp/seed-check-$$.log; c=${PIPESTATUS[0]}
+cat /tmp/seed-check-$$.log; echo "CHECK-EXIT=$c"
 cd $WT && git checkout -q -- . && git clean -fdq -e out
 rm -rf /tmp/seed-replays-$ID
 if [ $d0 = 0 ] && [ $d1 != 0 ] && echo "$t" | grep -q "52 failed, 111 passed"; then
   mkdir -p $DEST; cp $OUT/patch_$K.diff $DEST/patch.diff; cp $OUT/demo_$K.py $DEST/demo.py
-  /venv/bin/python - "$ID" "$K" "$c" "$d0" "$d1" "$t" <<'P'
+  /venv/bin/python - "$ID" "$K" "$c" "$d0" "$d1" "$t" "/tmp/seed-check-$$.log" <<'P'
 import json,sys
-ID,K,c,d0,d1,t=sys.argv[1:7]
+ID,K,c,d0,d1,t,logf=sys.argv[1:8]
 m=json.load(open(f"/tmp/{__import__('os').environ.get('SEEDPFX','seed')}-{ID}-out/meta_{K}.json"))
-first=[l.strip() for l in open("/tmp/seed-check.log") if "oracle=" in l][:1]
+first=[l.strip() for l in open(logf) if "oracle=" in l][:1]
 meta={"property":ID,"origin":"independent sub-agent given only the property text and a scratch worktree","summary":m.get("summary"),"needs":m.get("needs"),"files":m.get("files"),
  "confirmed":{"baseline_tests_with_change":t,"demo_exit_unchanged":int(d0),"demo_exit_changed":int(d1),"how":"tools/seed_verify.sh: demo on the clean worktree, git apply, full pytest baseline, demo again"},
  "dsim_quick_check":{"cmd":f"DSIM_REPO=<worktree with patch> /venv/bin/python -m dsim.check {ID}","exit":int(c),"caught":int(c)==1,"first_violation":first[0] if first else None}}
